@@ -519,3 +519,26 @@ package cache
 //@   nosafety all pre
 //@   assert at call (*middleware/cache.Store).lookupDenialProofWithExpiry#1: !prefixValid(clientScope) && !lastret("middleware/cache.hasEDNSClientSubnet") && !lastret("middleware/cache.sharedDenialBypass") && arg1 == req
 //@   assert at call middleware/cache.hasEDNSClientSubnet#1: !req.CheckingDisabled && len(req.Question) == 1
+//@
+//@ # ---- C19: scoped entries are never refreshed in the background (the worker has no client address to scope with)
+//@ func (*CacheEntry).scoped
+//@   requires e != nil
+//@   modifies nothing
+//@   ensures result == prefixValid(e.scope)
+//@ func (*CacheEntry).PrefetchEligible
+//@   requires e != nil
+//@   modifies nothing
+//@   ensures result == !prefixValid(e.scope)
+//@ # a configuration ecs.Build rejects yields NO policy (scoped caching off), never a permissive one
+//@ func buildCacheECSPolicy
+//@   abstract
+//@   nosafety all pre
+//@   assert at return#1: result == nil && lastret("internal/ecs.Build", 1) != nil
+//@   assert at return#2: result == lastret("internal/ecs.Build") && lastret("internal/ecs.Build", 1) == nil
+//@   assert at call internal/ecs.Build#1: arg0 == cfg.ECS.Enabled && arg1 == cfg.ECS.ForwardV4Max && arg2 == cfg.ECS.ForwardV6Max && arg3 == cfg.ECS.MinScopeV4 && arg4 == cfg.ECS.MinScopeV6 && arg5 == cfg.ECS.ClientNetworks
+//@
+//@ # scoped (ECS) entries get the additional TTL cap
+//@ func (*Store).setFromResponseWithKey$1
+//@   requires s != nil
+//@   modifies nothing
+//@   ensures result <= ttl && (scoped && s.cfg.ECSMaxTTL > 0 ==> result <= s.cfg.ECSMaxTTL) && (!(scoped && s.cfg.ECSMaxTTL > 0 && ttl > s.cfg.ECSMaxTTL) ==> result == ttl)
